@@ -43,7 +43,11 @@ CHECKS = {
              "NotAfterLoss, ReleaseOwnOnly. Application part: the real daemon in manager-handover scenarios (crash, cut, "
              "session expiry with a competing candidate at call boundaries of the switchover activation); every activation "
              "with cluster-wide actions, every positive lock answer and every promotion is projected to a row and judged by "
-             "TLC (LockAppRows.tla: ToldOnlyOwner, ActsOnlyConfirmed, SwitchRechecks).",
+             "TLC (LockAppRows.tla: ToldOnlyOwner, ActsOnlyConfirmed, SwitchRechecks). Mode machine: Daemon.tla (exits of every "
+             "state handler given lock answers / maintenance record / marker file, and the manager hand-over timer) is "
+             "model-checked; every activation of a real handler in those runs and in hand-over scripts (TLC-simulated "
+             "behaviours of the model replayed into daemons with manager_switchover on, plus timer-boundary scripts) is a row "
+             "judged by TLC (DaemonRows.tla: ManagerModeNeedsLock, ManagerAsksFirst, ReleaseOnlyByHandover; Conf_* = drift).",
         design_ref="DESIGN.md 7/C03",
         note="E7 (no expiry between applying and answering a request of the same session); 2 genuine findings listed "
              "(ReleaseLock vs re-created node), 2 repaired (S12 cache store race, FailSwitchover after lost lock)",
@@ -109,8 +113,9 @@ CHECKS = {
              "master, two masters, no master, stop replication, crash), disturbances (restarts, kills, ZooKeeper loss by the "
              "manager / all / not-yet-acknowledging candidates), +-disable semi-sync, with a committing workload; the frozen "
              "window, every removal of the record (with what the leaving activation observed when it started), kept "
-             "records and light-mode runs are digested to rows and judged by TLC (MaintRows.tla). One genuine finding (S9) "
-             "is listed.",
+             "records and light-mode runs are digested to rows and judged by TLC (MaintRows.tla). Every activation of a state "
+             "handler in those runs is also judged against the mode machine (Daemon.tla / DaemonRows.tla: CandidateFollowsAck, "
+             "PausedUntilToldToLeave, ManagerObeysRecord). One genuine finding (S9) is listed.",
         design_ref="DESIGN.md 7/C09",
         note="effect-based notion of change; CLI path emulated by the record it writes",
         technique="TLC validation of maintenance histories recorded from real code on fakes (TLA+ row spec)"),
